@@ -160,6 +160,7 @@ fn op_kind(op: &Op) -> &'static str {
         Op::StreamOpen { .. } => "StreamOpen",
         Op::StreamSend { .. } => "StreamSend",
         Op::SleepUntilLeaseEnd { .. } => "SleepUntilLeaseEnd",
+        Op::SleepUntilMultiple { .. } => "SleepUntilMultiple",
         Op::StreamCloseReq { .. } => "StreamCloseReq",
         Op::StreamDrop { .. } => "StreamDrop",
         Op::EndpointFaultsOff => "EndpointFaultsOff",
